@@ -5,6 +5,10 @@ package main
 // rule factory / repository / executor and the services' own constructors, and are served on loopback ports chosen
 // by the kernel. Failures are provoked with real mechanisms; the error which reaches the translators is recorded by
 // a wrapper around the real rule executor.
+//
+// Round 5 (errmap_ep.go): every request may name the log level of the service which gets it (one service per level,
+// built by the service's own constructor), the proxy can forward to a scripted upstream (informational responses, dying
+// in every way), and the endpoints of real mechanisms authenticate against a scripted token endpoint.
 
 import (
 	"bufio"
@@ -14,6 +18,8 @@ import (
 	"io"
 	"net"
 	"net/http"
+	"net/http/httptrace"
+	"net/textproto"
 	"os"
 	"path/filepath"
 	"strings"
@@ -207,6 +213,7 @@ mechanisms:
         identity_info_endpoint: { url: "http://BLOCKEDHOST/userinfo" }
         authentication_data_source: [ { header: X-Token } ]
         subject: { id: sub }
+EXTRA_AUTHENTICATORS
   authorizers:
     - id: deny
       type: deny
@@ -235,6 +242,8 @@ mechanisms:
       config:
         endpoint: { url: "http://BLOCKEDHOST/authz" }
         payload: "{}"
+EXTRA_AUTHORIZERS
+EXTRA_CONTEXTUALIZERS
   finalizers:
     - id: secret_header
       type: header
@@ -264,6 +273,10 @@ providers:
 type c12WaitStep struct {
 	send bool
 	err  error
+	// send through an endpoint which authenticates with oauth2_client_credentials (round 5); deadline: the context
+	// of the call expires after that time (0: the context of the request as it is)
+	auth     bool
+	deadline time.Duration
 }
 
 const c12WaitLimit = 15 * time.Second
@@ -271,6 +284,8 @@ const c12WaitLimit = 15 * time.Second
 type c12Recorder struct {
 	inner   rule.Executor
 	blocked string // address of the server which never answers
+	target  string // address of a server which answers every request
+	token   string // address of the scripted token endpoint
 	mu      sync.Mutex
 	last    map[string]any
 	rctx    string
@@ -289,6 +304,15 @@ func (r *c12Recorder) script(path string, step c12WaitStep) {
 }
 
 func (r *c12Recorder) wait(ctx heimdall.Context, step c12WaitStep) error {
+	if step.send && step.auth {
+		err := c12AuthenticatedSend(ctx.AppContext(), r.target, r.token, step.deadline)
+		if err == nil {
+			err = errors.New("the call through the authenticating endpoint succeeded")
+		}
+
+		return err
+	}
+
 	if step.send {
 		_, err := endpoint.Endpoint{URL: "http://" + r.blocked + "/resource", Method: http.MethodGet}.
 			SendRequest(ctx.AppContext(), nil, nil)
@@ -382,6 +406,13 @@ type c12Stack struct {
 	conn      *grpc.ClientConn
 	dir       string
 	held      *c12HeldConns
+	// round 5: one service per (service, log level); the scripted token endpoint; things to release
+	cch      cache.Cache
+	conns    map[string]*grpc.ClientConn
+	grpcSrvs []*grpc.Server
+	token    *c12TokenEndpoint
+	stopCh   chan struct{}
+	release  []func()
 }
 
 // connections accepted by the server which never answers
@@ -418,8 +449,24 @@ func (h *c12HeldConns) closeAll() {
 }
 
 func (s *c12Stack) stop() {
+	if s.stopCh != nil {
+		close(s.stopCh)
+	}
+
 	if s.conn != nil {
 		s.conn.Close()
+	}
+
+	for _, conn := range s.conns {
+		conn.Close()
+	}
+
+	for _, srv := range s.grpcSrvs {
+		srv.Stop()
+	}
+
+	for _, f := range s.release {
+		f()
 	}
 
 	for _, srv := range s.servers {
@@ -481,7 +528,7 @@ func c12RedirectRules(codes []int) string {
 }
 
 func c12StartStack(c map[string]any, cfgText string, mutate func(*config.Configuration)) (*c12Stack, error) {
-	st := &c12Stack{addr: map[string]string{}}
+	st := &c12Stack{addr: map[string]string{}, conns: map[string]*grpc.ClientConn{}, stopCh: make(chan struct{})}
 
 	dir, err := os.MkdirTemp(getStr(c, "tmp"), "c12-svc-")
 	if err != nil {
@@ -497,9 +544,23 @@ func c12StartStack(c map[string]any, cfgText string, mutate func(*config.Configu
 	}
 
 	st.listeners = append(st.listeners, upstream)
-	upSrv := &http.Server{Handler: http.HandlerFunc(func(rw http.ResponseWriter, _ *http.Request) {
+	upSrv := &http.Server{Handler: http.HandlerFunc(func(rw http.ResponseWriter, req *http.Request) {
 		rw.Header().Set("X-Upstream", "reached")
-		rw.WriteHeader(http.StatusOK)
+
+		// what the endpoints of the authenticating mechanisms (round 5) are expected to answer
+		switch req.URL.Path {
+		case "/userinfo":
+			rw.Header().Set("Content-Type", "application/json")
+			io.WriteString(rw, `{"sub":"user-1"}`) //nolint:errcheck
+		case "/introspect":
+			rw.Header().Set("Content-Type", "application/json")
+			fmt.Fprintf(rw, `{"active":true,"sub":"user-1","iss":"c12-issuer","exp":%d}`, time.Now().Add(time.Hour).Unix())
+		case "/ctxdata":
+			rw.Header().Set("Content-Type", "application/json")
+			io.WriteString(rw, `{"plan":"gold"}`) //nolint:errcheck
+		default:
+			rw.WriteHeader(http.StatusOK)
+		}
 	}), ReadHeaderTimeout: 5 * time.Second}
 	st.servers = append(st.servers, upSrv)
 
@@ -550,19 +611,53 @@ func c12StartStack(c map[string]any, cfgText string, mutate func(*config.Configu
 		}
 	}()
 
+	// round 5: the scripted upstream of the proxy, the scripted token endpoint, a port on which connections are refused
+	script, err := c12Listen()
+	if err != nil {
+		return st, err
+	}
+
+	st.listeners = append(st.listeners, script)
+
+	go c12ScriptedUpstream(script, st.stopCh)
+
+	tokenLn, err := c12Listen()
+	if err != nil {
+		return st, err
+	}
+
+	st.listeners = append(st.listeners, tokenLn)
+	st.token = &c12TokenEndpoint{stop: st.stopCh}
+	tokenSrv := &http.Server{Handler: st.token, ReadHeaderTimeout: 5 * time.Second}
+	st.servers = append(st.servers, tokenSrv)
+
+	go tokenSrv.Serve(tokenLn) //nolint:errcheck
+
+	refused, releaseRefused, err := c12RefusedPort()
+	if err != nil {
+		return st, err
+	}
+
+	st.release = append(st.release, releaseRefused)
+
+	keyFile := filepath.Join(dir, "signer.pem")
+	if err = c12WriteSignerKey(keyFile); err != nil {
+		return st, err
+	}
+
+	hosts := strings.NewReplacer("UPSTREAM", upstream.Addr().String(), "DEADHOST", dead.Addr().String(),
+		"BLOCKEDHOST", blocked.Addr().String(), "SCRIPTHOST", script.Addr().String(),
+		"TOKENHOST", tokenLn.Addr().String(), "REFUSEDHOST", refused)
+
 	rulesFile := filepath.Join(dir, "rules.yaml")
-	rulesText := strings.ReplaceAll(c12Rules+c12RedirectRules(getInts(c, "rcodes")), "UPSTREAM", upstream.Addr().String())
-	rulesText = strings.ReplaceAll(rulesText, "DEADHOST", dead.Addr().String())
-	rulesText = strings.ReplaceAll(rulesText, "BLOCKEDHOST", blocked.Addr().String())
+	rulesText := hosts.Replace(c12Rules + c12EndpointRules + c12RedirectRules(getInts(c, "rcodes")))
 
 	if err = os.WriteFile(rulesFile, []byte(rulesText), 0o600); err != nil {
 		return st, err
 	}
 
 	cfgFile := filepath.Join(dir, "heimdall.yaml")
-	cfgText = strings.ReplaceAll(cfgText, "RULESFILE", rulesFile)
-	cfgText = strings.ReplaceAll(cfgText, "DEADHOST", dead.Addr().String())
-	cfgText = strings.ReplaceAll(cfgText, "BLOCKEDHOST", blocked.Addr().String())
+	cfgText = hosts.Replace(strings.ReplaceAll(c12EndpointConfig(cfgText), "RULESFILE", rulesFile))
 
 	if err = os.WriteFile(cfgFile, []byte(cfgText), 0o600); err != nil {
 		return st, err
@@ -591,6 +686,9 @@ func c12StartStack(c map[string]any, cfgText string, mutate func(*config.Configu
 				mutate(cf)
 			}
 
+			cf.Prototypes.Authorizers = append(cf.Prototypes.Authorizers,
+				c12SignatureAuthorizers(upstream.Addr().String(), keyFile)...)
+
 			return cf
 		}),
 		fx.Populate(&conf, &cch, &logger, &exec),
@@ -607,7 +705,9 @@ func c12StartStack(c map[string]any, cfgText string, mutate func(*config.Configu
 	}
 
 	st.conf = conf
-	st.rec = &c12Recorder{inner: exec, blocked: blocked.Addr().String()}
+	st.cch = cch
+	st.rec = &c12Recorder{inner: exec, blocked: blocked.Addr().String(), target: upstream.Addr().String(),
+		token: tokenLn.Addr().String()}
 	logger = zerolog.Nop()
 
 	for _, name := range []string{"decision", "proxy"} {
@@ -649,6 +749,63 @@ func c12StartStack(c map[string]any, cfgText string, mutate func(*config.Configu
 	return st, nil
 }
 
+// service returns the key (in addr / conns) of the service `svc` running at log level `level`, building it with the
+// service's own constructor on first use ("" is the service with the no-op logger every stack starts with).
+func (s *c12Stack) service(svc, level string) (string, error) {
+	if level == "" {
+		return svc, nil
+	}
+
+	key := svc + "@" + level
+	if _, ok := s.addr[key]; ok {
+		return key, nil
+	}
+
+	logger, err := c12Logger(level)
+	if err != nil {
+		return "", err
+	}
+
+	ln, err := c12Listen()
+	if err != nil {
+		return "", err
+	}
+
+	s.listeners = append(s.listeners, ln)
+
+	switch svc {
+	case "decision", "proxy":
+		var srv *http.Server
+		if svc == "decision" {
+			srv = decision.VerifC12NewService(s.conf, s.cch, logger, s.rec)
+		} else {
+			srv = proxy.VerifC12NewService(s.conf, s.cch, logger, s.rec)
+		}
+
+		s.servers = append(s.servers, srv)
+
+		go srv.Serve(ln) //nolint:errcheck
+	case "envoy":
+		srv := grpcv3.VerifC12NewService(s.conf, s.cch, logger, s.rec)
+		s.grpcSrvs = append(s.grpcSrvs, srv)
+
+		go srv.Serve(ln) //nolint:errcheck
+
+		conn, err := grpc.NewClient(ln.Addr().String(), grpc.WithTransportCredentials(insecure.NewCredentials()))
+		if err != nil {
+			return "", err
+		}
+
+		s.conns[key] = conn
+	default:
+		return "", errors.New("unknown service " + svc)
+	}
+
+	s.addr[key] = ln.Addr().String()
+
+	return key, nil
+}
+
 var c12Client = &http.Client{ //nolint:gochecknoglobals
 	Timeout:       20 * time.Second,
 	CheckRedirect: func(*http.Request, []*http.Request) error { return http.ErrUseLastResponse },
@@ -660,9 +817,26 @@ var c12IgnoredHeaders = map[string]bool{ //nolint:gochecknoglobals
 }
 
 func (s *c12Stack) doHTTP(svc, path string, accept any, extra map[string]any) c12Resp {
-	req, err := http.NewRequest(http.MethodGet, "http://"+s.addr[svc]+path, nil)
+	resp, _ := s.doHTTPInfo(svc, path, accept, extra)
+
+	return resp
+}
+
+// doHTTPInfo: the answer and the status codes of the informational (1xx) responses which preceded it
+func (s *c12Stack) doHTTPInfo(svc, path string, accept any, extra map[string]any) (c12Resp, []int) {
+	info := []int{}
+
+	ctx := httptrace.WithClientTrace(context.Background(), &httptrace.ClientTrace{
+		Got1xxResponse: func(code int, _ textproto.MIMEHeader) error {
+			info = append(info, code)
+
+			return nil
+		},
+	})
+
+	req, err := http.NewRequestWithContext(ctx, http.MethodGet, "http://"+s.addr[svc]+path, nil)
 	if err != nil {
-		return c12Resp{Out: "rpcerr", GRPC: -1, Hdrs: [][]string{{"error", err.Error()}}}
+		return c12Resp{Out: "rpcerr", GRPC: -1, Hdrs: [][]string{{"error", err.Error()}}}, info
 	}
 
 	if a, ok := accept.(string); ok {
@@ -678,16 +852,20 @@ func (s *c12Stack) doHTTP(svc, path string, accept any, extra map[string]any) c1
 	res, err := c12Client.Do(req)
 	if err != nil {
 		// the connection was torn down without a response (a panic below the recovery middleware)
-		return c12Resp{Out: "panic", GRPC: -1, Hdrs: [][]string{}}
+		return c12Resp{Out: "panic", GRPC: -1, Hdrs: [][]string{}}, info
 	}
 
 	defer res.Body.Close()
 
-	return c12FromHTTPResponse(svc, res)
+	return c12FromHTTPResponse(svc, res), info
 }
 
 func c12FromHTTPResponse(svc string, res *http.Response) c12Resp {
-	body, _ := io.ReadAll(res.Body)
+	body, rerr := io.ReadAll(res.Body)
+	if rerr != nil {
+		// the transfer of the announced body was cut short: the client knows that it did not get the response
+		return c12Resp{Out: "aborted", Status: res.StatusCode, GRPC: -1, Hdrs: [][]string{}}
+	}
 
 	var hdrs [][]string
 
@@ -706,7 +884,7 @@ func c12FromHTTPResponse(svc string, res *http.Response) c12Resp {
 	}
 
 	out := "resp"
-	if res.Header.Get("X-Upstream") == "reached" || (svc == "decision" && res.StatusCode/100 == 2) {
+	if res.Header.Get("X-Upstream") == "reached" || (strings.HasPrefix(svc, "decision") && res.StatusCode/100 == 2) {
 		out = "ok"
 	}
 
@@ -765,18 +943,39 @@ func (s *c12Stack) doHalfClose(svc, path string, accept any, extra map[string]an
 
 	conn.SetReadDeadline(time.Now().Add(2 * c12WaitLimit)) //nolint:errcheck
 
-	res, err := http.ReadResponse(bufio.NewReader(conn), nil)
-	if err != nil {
-		// the connection was closed without any response
-		return noAnswer("read", err)
+	br := bufio.NewReader(conn)
+
+	for {
+		res, err := http.ReadResponse(br, nil)
+		if err != nil {
+			// the connection was closed without any (final) response
+			return noAnswer("read", err)
+		}
+
+		if res.StatusCode >= 100 && res.StatusCode < 200 && res.StatusCode != http.StatusSwitchingProtocols {
+			// an informational response: the final one follows
+			res.Body.Close()
+
+			continue
+		}
+
+		defer res.Body.Close()
+
+		return c12FromHTTPResponse(svc, res)
 	}
-
-	defer res.Body.Close()
-
-	return c12FromHTTPResponse(svc, res)
 }
 
 func (s *c12Stack) doGRPC(path string, accept any, extra map[string]any) c12Resp {
+	return s.doGRPCOn("envoy", path, accept, extra)
+}
+
+// doGRPCOn: the Check RPC against the Envoy gRPC service with the given key (see service)
+func (s *c12Stack) doGRPCOn(key, path string, accept any, extra map[string]any) c12Resp {
+	conn := s.conn
+	if c, ok := s.conns[key]; ok {
+		conn = c
+	}
+
 	hdrs := map[string]string{}
 	if a, ok := accept.(string); ok {
 		hdrs["accept"] = a
@@ -791,7 +990,7 @@ func (s *c12Stack) doGRPC(path string, accept any, extra map[string]any) c12Resp
 	ctx, cancel := context.WithTimeout(context.Background(), 20*time.Second)
 	defer cancel()
 
-	res, err := envoy_auth.NewAuthorizationClient(s.conn).Check(ctx, c12CheckRequest("GET", path, hdrs))
+	res, err := envoy_auth.NewAuthorizationClient(conn).Check(ctx, c12CheckRequest("GET", path, hdrs))
 	if err != nil {
 		return c12Resp{Out: "rpcerr", GRPC: -2, Hdrs: [][]string{{"error", err.Error()}}}
 	}
@@ -825,6 +1024,11 @@ func c12RunServices(c map[string]any) (any, error) {
 	st, err := c12StartStack(c, cfgText, func(cf *config.Configuration) {
 		c12ApplyOverrides(&cf.Serve.Decision.Respond, cfg)
 		c12ApplyOverrides(&cf.Serve.Proxy.Respond, pcfg)
+
+		// `serve.proxy.timeout.read` (ms): also the time the proxy waits for the header of the upstream's response
+		if ms := getInt(c, "ptimeout"); ms > 0 {
+			cf.Serve.Proxy.Timeout.Read = time.Duration(ms) * time.Millisecond
+		}
 		// the configuration schema does not admit the type name the mechanism loader knows, so the challenge
 		// handler is added to the loaded catalogue
 		cf.Prototypes.ErrorHandlers = append(cf.Prototypes.ErrorHandlers, c12ErrorHandlerPrototypes(c)...)
@@ -864,9 +1068,19 @@ func c12RunServices(c map[string]any) (any, error) {
 
 		svc := getStr(rq, "svc")
 
+		// the service at the log level of the request; what the token endpoint does with the token requests made
+		// while this request is processed
+		key, err := st.service(svc, getStr(rq, "log"))
+		if err != nil {
+			return nil, err
+		}
+
+		st.token.set(getStr(rq, "tfault"))
+
 		if w, ok := rq["werr"]; ok && w != nil {
 			// a scripted step which waits with the context of the request and then fails
-			step := c12WaitStep{send: getStr(obj(w), "t") == "send"}
+			step := c12WaitStep{send: getStr(obj(w), "t") == "send", auth: getBool(obj(w), "auth"),
+				deadline: time.Duration(getInt(obj(w), "deadline")) * time.Millisecond}
 
 			if !step.send {
 				if step.err, err = c12BuildErr(obj(w)); err != nil {
@@ -880,24 +1094,28 @@ func c12RunServices(c map[string]any) (any, error) {
 		switch {
 		case getBool(rq, "hc") && svc != "envoy":
 			begin := time.Now()
-			resp = st.doHalfClose(svc, getStr(rq, "path"), rq["accept"], obj(rq["hdr"]),
+			resp = st.doHalfClose(key, getStr(rq, "path"), rq["accept"], obj(rq["hdr"]),
 				time.Duration(getInt(rq, "hcdelay"))*time.Millisecond)
 			out = append(out, map[string]any{"err": st.rec.take(), "resp": resp, "rctx": st.rec.takeState(),
-				"ms": time.Since(begin).Milliseconds()})
+				"ms": time.Since(begin).Milliseconds(), "tokreq": st.token.called()})
 
 			continue
 		}
 
+		info := []int{}
+		begin := time.Now()
+
 		switch svc {
 		case "decision", "proxy":
-			resp = st.doHTTP(svc, getStr(rq, "path"), rq["accept"], obj(rq["hdr"]))
+			resp, info = st.doHTTPInfo(key, getStr(rq, "path"), rq["accept"], obj(rq["hdr"]))
 		case "envoy":
-			resp = st.doGRPC(getStr(rq, "path"), rq["accept"], obj(rq["hdr"]))
+			resp = st.doGRPCOn(key, getStr(rq, "path"), rq["accept"], obj(rq["hdr"]))
 		default:
 			return nil, errors.New("unknown service " + svc)
 		}
 
-		out = append(out, map[string]any{"err": st.rec.take(), "resp": resp, "rctx": st.rec.takeState()})
+		out = append(out, map[string]any{"err": st.rec.take(), "resp": resp, "rctx": st.rec.takeState(),
+			"info": info, "ms": time.Since(begin).Milliseconds(), "tokreq": st.token.called()})
 	}
 
 	return out, nil
